@@ -417,6 +417,9 @@ def curated():
     # integral sequences (BIN)
     A(('vec', u8)); A(('vec', i16)); A(('vec', u32)); A(('vec', i64)); A(('vec', P('char')))
     A(('arr', u8, 1)); A(('arr', i32, 3)); A(('arr', u16, 200)); A(('carr', u64, 3)); A(('carr', i8, 1)); A(('carr', u16, 200))
+    # arrays of bool are integral arrays too (BIN); std::vector<bool> is not a contiguous container and is not supported
+    A(('arr', P('bool'), 4)); A(p.struct([('flags', ('carr', P('bool'), 3)), ('n', u8)], name='StBools'))
+    A(p.lbuf(P('bool'), 5, 'std::uint8_t', storage='arr', name='LbBool'))
     # non-integral sequences (ARY)
     A(('vec', string)); A(('vec', P('float'))); A(('vec', ('enum', 'EnI16'))); A(('vec', ('vec', u8)))
     A(('arr', string, 3)); A(('arr', P('double'), 1)); A(('carr', string, 3)); A(('arr', ('pair', u8, string), 3))
